@@ -13,7 +13,7 @@ From TS Require Import Model.MultiFile Spec.C10MultiSpec.
 From TS Require Model.Writer Proofs.C10Multi Proofs.C10MultiWitness.
 From TS Require Import Spec.C10GoGrammar.
 From TS Require Proofs.C10_GOGrammarTok Proofs.C10_GOGrammarSemi Proofs.C10_GOGrammarParse Proofs.C10_GOGrammar Proofs.C10_GOGrammarFile.
-From TS Require Proofs.C10_GOGrammarTagged Proofs.C10_GOGrammarIR.
+From TS Require Proofs.C10_GOGrammarTagged Proofs.C10_GOGrammarIR Proofs.C10_GOGrammarIR2.
 
 (* ---------------------------------------------------------------- the lexers *)
 (* the lexer never looks below the bracket stack it started with: a text that is balanced on its own
@@ -606,7 +606,8 @@ Theorem C10_go_layout_grammar :
 Proof. exact Proofs.C10_GOGrammarFile.go_decls_recognised. Qed.
 Print Assumptions C10_go_layout_grammar.
 
-(* Whole files, from the IR, PARTIAL (covered: structs, aliases, constants, unit enums, any type_mappings / type overrides that are
+(* Whole files, from the IR, PARTIAL (superseded by C10_grammar_go below, which adds (a); covered: structs, aliases, constants, unit
+   enums, any type_mappings / type overrides that are
    types of the grammar; MISSING: (a) algebraic = tagged enums at the decision layer - c10_gog_item_ok is False for them; their
    layout is C10_go_decl_layout_grammar, what is not proved is that go_enum_decls_of yields a c10_gog_tagged_ok declaration - and
    (b) non-empty uppercase_acronyms): for every program of dom_C10 and every admissible configuration (the hypotheses of
@@ -643,3 +644,39 @@ Theorem C10_grammar_go_partial_witness :
   contains_sub (lit "ColorDarkBlue Color = ""dark-blue""") Proofs.C10_GOGrammarIR.gi_text = true.
 Proof. exact Proofs.C10_GOGrammarIR.C10_grammar_go_partial_nonvacuous. Qed.
 Print Assumptions C10_grammar_go_partial_witness.
+
+(* Whole files, from the IR, ALL items (algebraic enums included), for an EMPTY uppercase_acronyms list (what remains open is the
+   extension to alphanumeric acronym lists with the letter-case relation of Proofs/C10_GOAcr.v): the hypotheses of
+   C10_grammar_go_partial, with c10_gog_dom2 = c10_gog_dom on structs / aliases / constants / unit enums and, for an algebraic
+   enum E with tag key t and content key c (P = to_pascal_case t):
+     E is no keyword; the tag field P and the content field to_camel_case c are identifiers that are no keyword (excluded: a tag
+       key made of underscores / digits / dashes; a CONTENT KEY THAT IS A GO KEYWORD - `content = "type"` prints the field
+       `type interface{}`: the finding class C10-go-keyword-name extends to it, the computable class c10_go_kw_class of
+       Spec/C10GoGrammar.v does not look at the content key); the key type E ++ P ++ "s" and every variant constant
+       E ++ P ++ "Variant" ++ V are names (always so when E, P, V are identifiers: stated, not derived);
+     a variant V that carries something is no keyword (it names the accessor `func (e E) V() ...`); a tuple variant's type refers
+       to no keyword; a struct variant's helper struct E ++ V ++ "Inner" is a name, its generic parameters are no keywords and its
+       fields are as the fields of a struct;
+   the receiver name (first character of E, lower-cased) is derived: a one-letter identifier is no keyword.
+   The recogniser accepts the generated file - version comment, package clause, import declaration(s), every declaration with its
+   helper structs, UnmarshalJSON / MarshalJSON, accessors and constructors - and finds at least one declaration per item. *)
+Theorem C10_grammar_go :
+  forall (uc : unicode) (cfg : go_config) (pd : parsed) (text : str),
+    unicode_ok uc -> Proofs.C10_GOFile.c10_go_cfg_ok cfg = true -> Proofs.C10_GOGrammarIR.c10_gog_cfg_ok cfg ->
+    dom_C10 CGO pd = true -> Proofs.C10_GOGrammarIR2.c10_gog_dom2 pd ->
+    go_generate uc cfg pd = Ok text ->
+    exists n : nat, c10_go_recognise text = Some n /\ (List.length (items_of pd) <= n)%nat.
+Proof. exact Proofs.C10_GOGrammarIR2.go_generate_recognised. Qed.
+Print Assumptions C10_grammar_go.
+
+(* its hypotheses are satisfiable: the whole program of C10_grammar_go_witness (generic struct, generic alias, unit enum, algebraic
+   enum with unit / tuple / optional-tuple / struct variants, two constants) under the configuration of that witness is in the
+   domain of C10_grammar_go; its file is the one accepted there as 19 declarations *)
+Theorem C10_grammar_go_in_domain :
+  unicode_ok uc_exec /\ Proofs.C10_GOFile.c10_go_cfg_ok Proofs.C10_GOGrammarFile.gg_cfg = true /\
+  Proofs.C10_GOGrammarIR.c10_gog_cfg_ok Proofs.C10_GOGrammarFile.gg_cfg /\ dom_C10 CGO Proofs.C10_GOGrammarFile.gg_prog = true /\
+  Proofs.C10_GOGrammarIR2.c10_gog_dom2 Proofs.C10_GOGrammarFile.gg_prog /\
+  go_generate uc_exec Proofs.C10_GOGrammarFile.gg_cfg Proofs.C10_GOGrammarFile.gg_prog = Ok Proofs.C10_GOGrammarFile.gg_text /\
+  c10_go_recognise Proofs.C10_GOGrammarFile.gg_text = Some 19%nat.
+Proof. exact Proofs.C10_GOGrammarIR2.C10_grammar_go_nonvacuous. Qed.
+Print Assumptions C10_grammar_go_in_domain.
